@@ -97,10 +97,11 @@ type Profile struct {
 	MaxFrontier int64
 	Deadline    time.Duration // internal time cap (0 = none); hitting it ends the run with Exhaustive=false
 	Workers     int
-	// ContinueRoots / ContinueDepth: after the exhaustive levels, the ContinueRoots states of the last
-	// level with the smallest hashes serve as further roots, from which the search goes on at full
-	// width for ContinueDepth more levels (bounded exhaustive search from more starting points; the
-	// states reached there are longer histories than the exhaustive bound covers).
+	// ContinueRoots / ContinueDepth: a deterministic beam beyond the exhaustive bound. Of the new
+	// states of the last exhaustive level, and of every further level, the ContinueRoots with the
+	// smallest hashes are expanded (every action of the menu), for ContinueDepth more levels. The
+	// histories reached are longer than the exhaustive bound covers; the beam is a supplement and
+	// never part of the exhaustive-within-bound claim.
 	ContinueRoots int
 	ContinueDepth int
 	// PostStep, if set, is called on every transition after the oracles (differential checks).
@@ -257,7 +258,7 @@ func Run(p *Profile) (*Result, error) {
 	for depth := 0; depth < totalDepth && len(frontier) > 0; depth++ {
 		next := make([][]*node, workers)
 		// the last exhaustive level keeps only the candidates for continuation roots
-		selecting := p.ContinueRoots > 0 && depth+1 == p.Depth
+		selecting := p.ContinueRoots > 0 && depth+1 >= p.Depth && depth+1 < totalDepth
 		roots := make([][]*node, workers)
 		var newStates int64
 		statesSoFar := res.States
@@ -373,7 +374,9 @@ func Run(p *Profile) (*Result, error) {
 			if len(all) > p.ContinueRoots {
 				all = all[:p.ContinueRoots]
 			}
-			res.ContinueRoots = len(all)
+			if depth+1 == p.Depth {
+				res.ContinueRoots = len(all)
+			}
 			frontier = all
 			continue
 		}
